@@ -288,8 +288,9 @@ func genAnnotLine(r *rng.R) annotLine {
 			sb.WriteString(rng.Pick(r, []string{" ", "  ", "\t"}) + it.Desc)
 		}
 	}
-	if r.Chance(1, 10) {
-		sb.WriteString(rng.Pick(r, []string{" ", "\t", "  "}))
+	if r.Chance(1, 7) {
+		// strings.TrimSpace strips every Unicode blank; the regex's \s knows the ASCII ones only
+		sb.WriteString(rng.Pick(r, []string{" ", "\t", "  ", "\u00a0", "\u3000", "\v", "\f", " \u2003", "\u0085", "\u3000 "}))
 	}
 	s := sb.String()
 	if r.Chance(1, 12) { // rune-level mutation of a valid line (kept valid UTF-8, no line terminators)
